@@ -57,7 +57,9 @@ class Site(object):
             # the control file is reached through a redirect whose own body is longer than the file itself
             filler = ('<html><body>moved ' + 'x' * via.get('body_len', 600) + via.get('tail', '') + '</body></html>').encode()
             return 'robots30x', _http(301, 'Moved', filler, 'text/html', [('Location', 'http://%s%s' % (olabel, via['path']))])
-        if path == '/robots.txt' or (via and path == via['path']):
+        if self.lookup(host, port, path) is not None and not via:
+            pass        # the site declares a document at this path (with --sitemaps /robots.txt is an item like any other)
+        elif path == '/robots.txt' or (via and path == via['path']):
             r = r0
             k = r['kind']
             if k == 'rules':
@@ -100,7 +102,7 @@ class Site(object):
             parts.append('<title>t</title></head><body>')
             for l in d.get('links', []):
                 href = l.get('spelling') or self.url_text(l['to'])
-                if late and not l.get('inline'):
+                if (late and not l.get('inline')) or l.get('implicit'):
                     continue
                 if l.get('css'):
                     parts.append('<link rel="stylesheet" href="%s">' % href)
@@ -112,6 +114,15 @@ class Site(object):
                     parts.append('<a href="%s">x</a>' % href)
             parts.append('</body></html>')
             return 'page', _http(200, 'OK', ''.join(parts).encode(), 'text/html')
+        if kind == 'sitemap':
+            locs = ''.join('<url><loc>%s</loc></url>' % (l.get('spelling') or self.url_text(l['to'])) for l in d.get('links', []))
+            body = ('<?xml version="1.0" encoding="UTF-8"?>\n<urlset xmlns="http://www.sitemaps.org/schemas/sitemap/0.9">'
+                    + locs + '</urlset>\n')
+            return 'page', _http(200, 'OK', body.encode(), 'text/xml')
+        if kind == 'robotsfile':
+            body = 'User-agent: *\nDisallow:\n' + ''.join('Sitemap: %s\n' % (l.get('spelling') or self.url_text(l['to']))
+                                                          for l in d.get('links', []))
+            return 'page', _http(200, 'OK', body.encode(), 'text/plain')
         if kind == 'css':
             parts = []
             for l in d.get('links', []):
@@ -219,6 +230,8 @@ class CrawlRun(object):
         d = self.site.lookup(host, port, path)
         rcfg = self.site.robots.get(host if port == 80 else '%s:%d' % (host, port), {})
         is_robots = path == '/robots.txt' or (rcfg.get('via_redirect') or {}).get('path') == path
+        if d is not None and not rcfg.get('via_redirect'):
+            is_robots = False       # a declared document (with --sitemaps /robots.txt is fetched as an item)
         kind = 'robots' if is_robots else ('page' if d is not None else 'other')
         u = d['id'] if d is not None else 0
         self.pending.append((self.nreq, ep, u, host, port, path, kind))
